@@ -347,7 +347,7 @@ QUICK_SIZES = (12, 16, 20, 24, 28, 32)   # steps of 4 units: a 2^k family grows 
 RATIO = 4.0          # growth of the time from one size to the next that counts as a blow-up (sizes grow by <= 1.5x)
 FLOOR = 100.0        # ... when the time is also this many times the time for a harmless text of the same length
 STOP_S = 0.3         # a family is not measured at larger sizes once one measurement took this long
-BACKSTOP_S = 60.0    # silence after which the child is killed
+BACKSTOP_S = 40.0    # silence after which the child is killed
 
 CHILD = r'''
 import sys, time, json
@@ -419,7 +419,7 @@ def measure(families, sizes, stop_after=None):
     from tools import framework
     tmp = os.path.join(framework.LEAN, '.lake', 'c02_blowup_cases_%d.json' % os.getpid())
     os.makedirs(os.path.dirname(tmp), exist_ok=True)
-    out, measured, rest, hits, last = {}, 0, list(families), 0, None
+    out, measured, rest, hits, last, kills = {}, 0, list(families), 0, None, 0
     try:
         while rest:
             json.dump(dict(families=rest, sizes=list(sizes), stop=STOP_S), open(tmp, 'w'))
@@ -467,8 +467,9 @@ def measure(families, sizes, stop_after=None):
             if killed and cur is not None:
                 d, o, u, k = cur
                 out.setdefault((d, o, u), []).append((k, len(o + u * k), None, 0.0))
-                hits, last = hits + 1, None
-                if stop_after is not None and hits >= stop_after:
+                hits, last, kills = hits + 1, None, kills + 1
+                # a child that had to be killed costs BACKSTOP_S: whatever the tier, six of them settle the verdict
+                if (stop_after is not None and hits >= stop_after) or kills >= 6:
                     return out, measured
                 i = rest.index([d, o, u]) if [d, o, u] in rest else rest.index((d, o, u))
                 rest = rest[i + 1:]
